@@ -171,3 +171,39 @@ def insideOf (parents : List Nat) : Nat → Nat → Nat → Bool
   | fuel + 1, v, u => if v = 0 then false else if v = u then true else insideOf parents fuel (parents.getD (v - 1) 0) u
 
 end Comdex.Hooks
+
+namespace Comdex.Hooks
+
+/-! ## Per-item loops: every item under its own wrapper, or ONE wrapper around the whole loop
+
+`x/liquidity/abci.go:18-27` is `for _, app := range allApps { _ = ApplyFuncIfNoError(ctx, func … app.Id …) }`: the
+item loop is OUTSIDE the wrapper, `runUnits`. Swapping the two lines gives `ApplyFuncIfNoError(ctx, func … { for … })`:
+all items run on one cache context (`seqAll`) and are committed or dropped together (`runAsOne`). -/
+
+/-- the steps one after the other on ONE context, stopping at the first failure -/
+def seqAll {σ : Type} : List (σ → Except Fail σ) → σ → Except Fail σ
+  | [], s => .ok s
+  | f :: fs, s =>
+    match f s with
+    | .ok s' => seqAll fs s'
+    | .error e => .error e
+
+/-- one wrapper around the whole loop -/
+def runAsOne {σ : Type} (us : List (σ → Except Fail σ)) (s : σ) : σ × Bool := applyIfNoError (seqAll us) s
+
+/-- item number `i` in the abstract: it appends its number to the log of processed items, or fails (`ok = false`:
+poisoned state, injected fault) -/
+def itemUnit (ok : Bool) (i : Nat) : List Nat → Except Fail (List Nat) :=
+  fun s => if ok then .ok (s ++ [i]) else .error .err
+
+/-- the items numbered `i, i+1, …` with the given outcomes -/
+def itemUnits : List Bool → Nat → List (List Nat → Except Fail (List Nat))
+  | [], _ => []
+  | ok :: rest, i => itemUnit ok i :: itemUnits rest (i + 1)
+
+/-- the numbers of the items that do not fail -/
+def okItems : List Bool → Nat → List Nat
+  | [], _ => []
+  | ok :: rest, i => if ok then i :: okItems rest (i + 1) else okItems rest (i + 1)
+
+end Comdex.Hooks
